@@ -23,6 +23,8 @@ EFUNS = ["save_object", "restore_object"]
 PED = [("/d/f.txt", "/d/out"), ("/d/nofile", "/d/sub/o2"), ("/d/../master.c", "/../x"), ("/d", "/d/f.txt"), ("", "/d/new"),
        ("/a/a", "relative"), ("//nonexistent-c15/x/y", "//nonexistent-c15/x/y"), ("/d/f.txt", "/d/sub")]
 POL_FULL = ["allow", "echo"]
+POL_ERR = ["raise", "raiseon=[d/sub]", "raiseon=[/d/f.txt]", "raiseon=[/d/sub]", "odd=[array]", "odd=[emptyarray]",
+           "odd=[float]", "odd=[float0]", "odd=[object]", "odd=[neg]", "odd=[two]"]
 POL_FEW = ["deny", "fixed=[/a/a]", "fixed=[/d]", "fixed=[/../outside.txt]", "fixed=[//nonexistent-c15/x/y]",
            "fixed=[/d/new]", "fixed=[]"]
 INC_BASES = ["x.c", "t/x.c", "t/u/x.c"]
@@ -39,6 +41,11 @@ def br(s):
     return "[" + s + "]"
 
 
+def pl(pol):
+    """first line of a system-style case: the master policy, or the run with the master that lacks the functions"""
+    return "master absent" if pol == "ABSENT" else "policy " + pol
+
+
 class C15(Prop):
     id = "C15"
     title = "File access is confined to the mudlib and always mediated by the master"
@@ -49,7 +56,9 @@ class C15(Prop):
                 "NV.C15.load_probe_confined", "NV.C15.include_path_confined", "NV.C15.inc_dir_ok",
                 "NV.C15.include_path_confined_config", "NV.C15.judge_lp_model",
                 "NV.C15.judge_cvp_model", "NV.C15.judge_inc_model", "NV.C15.judge_sn_model",
-                "NV.C15.model_satisfies_spec", "NV.C15.efun_segOk", "NV.C15.fold_ok",
+                "NV.C15.model_satisfies_spec", "NV.C15.model_satisfies_spec_absent", "NV.C15.model_satisfies_spec_present",
+                "NV.C15.efun_segOk", "NV.C15.fold_ok", "NV.C15.check_valid_path_error_fails_closed",
+                "NV.C15.check_valid_path_absent_or_odd_approves", "NV.C15.mediation_propagates_errors",
                 "NV.C15.mediated_sites", "NV.C15.inventory_covers_efuns", "NV.C15.efun_surface_modelled"]
     witness_theorems = ["NV.C15.include_normaliser_not_confined", "NV.C15.include_normaliser_trailing_dotdot",
                         "NV.C15.include_normaliser_slash_quirk", "NV.C15.include_unguarded_escapes",
@@ -154,7 +163,15 @@ class C15(Prop):
 
     def run_impl(self, ctx, cases):
         self.fresh_mudlib(ctx)
-        res = E.run_harness(self.exe, self.conf, cases, ctx.rundir, args=("--timeout", "120"))
+        normal = [c for c in cases if not (c.lines and c.lines[0] == "master absent")]
+        absent = [c for c in cases if c.lines and c.lines[0] == "master absent"]
+        res = E.run_harness(self.exe, self.conf, normal, ctx.rundir, args=("--timeout", "120")) if normal else {}
+        if absent:
+            # second harness process: a master object WITHOUT valid_read / valid_write
+            self.fresh_mudlib(ctx)
+            conf2 = self.conf + ".absent"
+            open(conf2, "w").write(open(self.conf).read().replace("/c15/master.c", "/c15/master_absent.c"))
+            res.update(E.run_harness(self.exe, conf2, absent, ctx.rundir, args=("--timeout", "120")))
         if len(cases) > 50:          # the main evaluation (not a shrink / replay round)
             touched = {}
             for lines in res.values():
@@ -181,17 +198,17 @@ class C15(Prop):
             for s in ["/d/f", "", "/", "//etc", "/../x", "d/./f", "/d/."]] +
            ["usn1 " + br(s) for s in ["//a/b.c.c", "a//b", ".c", "x.c", "/", "", "a.c.cc", "/.c.c", "abc"]] +
            ["uinc1 %s %s" % (br(b), br(n)) for b in INC_BASES for n in INC_NAMES])
-        for pol in POL_FULL + POL_FEW:
+        for pol in POL_FULL + POL_FEW + POL_ERR + ["ABSENT"]:
             paths = P1 if pol in POL_FULL else ["/d/f.txt", "/d/sub", "/../outside.txt", "", "/d/nofile"]
             for e in EFUN1:
-                mk("%s-%s" % (e, pol), ["policy " + pol] + ["fx %s %s" % (e, br(p)) for p in paths])
+                mk("%s-%s" % (e, pol), [pl(pol)] + ["fx %s %s" % (e, br(p)) for p in paths])
             for e in EFUNS:
-                mk("%s-%s" % (e, pol), ["policy " + pol] + ["fx %s %s" % (e, br(p)) for p in PSAVE])
+                mk("%s-%s" % (e, pol), [pl(pol)] + ["fx %s %s" % (e, br(p)) for p in PSAVE])
             pairs = [(a, b) for a in P2 for b in P2] if pol in POL_FULL else [("/d/f.txt", "/d/new"), ("/d/f.txt", "/d/sub"),
                                                                               ("/../x", "/d/new"), ("/d", "/a")]
-            mk("ed-%s" % pol, ["policy " + pol] + ["fx ed %s %s" % (br(a), br(b)) for a, b in PED])
+            mk("ed-%s" % pol, [pl(pol)] + ["fx ed %s %s" % (br(a), br(b)) for a, b in PED])
             for e in EFUN2:
-                mk("%s-%s" % (e, pol), ["policy " + pol] + ["fx %s %s %s" % (e, br(a), br(b)) for a, b in pairs])
+                mk("%s-%s" % (e, pol), [pl(pol)] + ["fx %s %s %s" % (e, br(a), br(b)) for a, b in pairs])
         mk("include", ["inc %s %s" % (br(b), br(n)) for b in INC_BASES for n in INC_NAMES])
         for i, n in enumerate(INH_NAMES):
             mk("inherit-%d" % i, ["inh [t/y.c] " + br(n)])
@@ -213,6 +230,9 @@ class C15(Prop):
         chunks("cvp-echo", "ucvp echo %s %d %d %d", 0, maxlen)
         chunks("cvp-deny", "ucvp deny %s %d %d %d", 0, 3)
         chunks("cvp-fixed", "ucvp fixed=[/a/../a] %s %d %d %d", 0, 2)
+        chunks("cvp-raise", "ucvp raise %s %d %d %d", 0, 3)
+        chunks("cvp-raiseon", "ucvp raiseon=[a/.] %s %d %d %d", 0, 3)
+        chunks("cvp-odd", "ucvp odd=[float0] %s %d %d %d", 0, 4)
         for i, b in enumerate(INC_BASES):
             chunks("inc%d" % i, "uinc " + br(b) + " %s %d %d %d", 0, maxlen)
         # system level: every include name over {a . /} up to length 4 from a file in a sub-directory
@@ -255,14 +275,17 @@ class C15(Prop):
                     s = self.rand_path(rng, 12)
                     if rng.chance(1, 10):
                         s = s + "/" + "y" * rng.range(100, 600)
-                    pol = rng.choice(["allow", "echo", "deny", "fixed=" + br(self.rand_path(rng, 4))])
+                    pol = rng.choice(["allow", "echo", "deny", "raise", "odd=[array]", "fixed=" + br(self.rand_path(rng, 4)),
+                                      "raiseon=" + br(s)])
                     lines += ["ulp1 " + br(s), "usn1 " + br(s), "ucvp1 %s %s" % (pol, br(s))]
                     nm = self.rand_path(rng, 6, lead=rng.chance(1, 4))
                     base = rng.choice(INC_BASES + ["a/b/c/d.c", "sub/..x/y.c"])
                     lines.append("uinc1 %s %s" % (br(base), br(nm[:100])))
             elif k == 1:    # efun calls
-                pol = rng.choice(POL_FULL * 3 + POL_FEW + ["fixed=" + br(self.rand_sys_path(rng))])
-                lines.append("policy " + pol)
+                pol = rng.choice(POL_FULL * 3 + POL_FEW + POL_ERR + ["ABSENT", "fixed=" + br(self.rand_sys_path(rng)),
+                                                                     "raiseon=" + br(self.rand_sys_path(rng))])
+                absent = pol == "ABSENT"
+                lines.append(pl(pol))
                 for _ in range(12):
                     j = rng.below(10)
                     if j < 6:
@@ -273,8 +296,8 @@ class C15(Prop):
                         p = self.rand_sys_path(rng)
                         if len(p) >= 4:
                             lines.append("fx %s %s" % (rng.choice(EFUNS), br(p)))
-                    if rng.chance(1, 6):
-                        lines.append("policy " + rng.choice(POL_FULL + POL_FEW))
+                    if rng.chance(1, 6) and not absent:
+                        lines.append("policy " + rng.choice(POL_FULL + POL_FEW + POL_ERR))
             else:           # include names
                 for _ in range(10):
                     comps = ["..", ".", "", "a", "d", "inc.h", "std.h", "include", "t", "x"]
